@@ -282,7 +282,11 @@ static KSI_DataHash *lib_hash(const unsigned char *imp, size_t n) {
 	KSI_DataHash *h = NULL; unsigned char *e = vh_exact(imp, n);
 	int res = KSI_DataHash_fromImprint(ctx, e, n, &h);
 	vh_exact_free(e, n);
-	if (res != KSI_OK) { harness_fail("KSI_DataHash_fromImprint", res); return NULL; }
+	if (res != KSI_OK) {
+		/* a well-formed imprint of an algorithm the reference computes itself (id + digest of that algorithm's length): refusing it is the library's doing */
+		const EVP_MD *md = n ? ref_md(imp[0]) : NULL;
+		if (md && (size_t)EVP_MD_size(md) + 1 == n) { char key[80]; snprintf(key, sizeof key, "imprint:valid-imprint-refused:alg-%d", imp[0]); VIOL(key, vh_case_get(), "KSI_DataHash_fromImprint refuses a well-formed imprint of algorithm %d (%zu octets): res=0x%x", imp[0], n, res); return NULL; }
+		harness_fail("KSI_DataHash_fromImprint", res); return NULL; }
 	return h;
 }
 /* metadata element through TLV 04 <payload>; NULL + *rejected=1 when the library's metadata parser refuses the payload */
